@@ -15,6 +15,8 @@ func init() {
 	Registry["C10"] = func(c *Ctx) {
 		c.R.NotDecided = append(c.R.NotDecided, "cryptographic soundness of the digest; the URL relaxation as a value relation between strings")
 		c10ParamInfluence(c)
+		c10MethodGate(c)
+		c10CtxConn(c)
 		c10URLRelaxation(c)
 		c10NonceStable(c)
 		c10AuthError(c)
@@ -425,5 +427,229 @@ func c10RetryOnce(c *Ctx) {
 	}
 	if n == 0 {
 		r.Fail("C10/RETRY-ONCE", "Client.do retry", p.Pos(fn.Pos()), "no recursive retry found: the anchor moved")
+	}
+}
+
+// c10MethodGate (added after the seeded change C10-r2m1 was missed): on every
+// accepting path of auth.Verify, the credential scheme actually evaluated (the
+// hash function that produced the expected digest, or the Basic password
+// comparison) is one whose verification method was tested as enabled on that
+// path. Paths are enumerated with consistency pruning on the tests of
+// auth.Algorithm (nil-ness and value).
+func c10MethodGate(c *Ctx) {
+	p, r := c.P, c.R
+	r.Rule("C10/METHOD-GATE", "every accepting path of auth.Verify evaluates only a scheme whose method was found enabled on that path: MD5 digest under VerifyMethodDigestMD5, SHA-256 digest under VerifyMethodDigestSHA256, Basic comparison under VerifyMethodBasic (the gate and the hash selection must agree)", 3)
+	fn := p.Func("pkg/auth", "Verify")
+	if !r.Anchor("C10/METHOD-GATE", "pkg/auth.Verify", fn != nil) {
+		return
+	}
+	consts := enumConstsUntyped(p, "pkg/auth", []string{"VerifyMethodBasic", "VerifyMethodDigestMD5", "VerifyMethodDigestSHA256"})
+	if !r.Anchor("C10/METHOD-GATE", "pkg/auth.VerifyMethod constants", len(consts) == 3) {
+		return
+	}
+	// hash helpers of pkg/auth, classified by the crypto package they reach
+	hashOf := func(call *ssa.Call) string {
+		cal := call.Call.StaticCallee()
+		if cal == nil || cal.Blocks == nil {
+			return ""
+		}
+		for _, b := range cal.Blocks {
+			for _, in := range b.Instrs {
+				if ci, ok := in.(ssa.CallInstruction); ok {
+					if f := ci.Common().StaticCallee(); f != nil && f.Pkg != nil {
+						switch f.Pkg.Pkg.Path() {
+						case "crypto/md5":
+							return "VerifyMethodDigestMD5"
+						case "crypto/sha256":
+							return "VerifyMethodDigestSHA256"
+						}
+					}
+				}
+			}
+		}
+		return ""
+	}
+	type facts struct {
+		enabled map[string]bool
+		algNil  int // 0 unknown, 1 nil, 2 non-nil
+		algIs   string
+		algNot  map[string]bool
+		used    map[string]string // method -> position
+	}
+	clone := func(f facts) facts {
+		o := facts{enabled: map[string]bool{}, algNil: f.algNil, algIs: f.algIs, algNot: map[string]bool{}, used: map[string]string{}}
+		for k, v := range f.enabled {
+			o.enabled[k] = v
+		}
+		for k, v := range f.algNot {
+			o.algNot[k] = v
+		}
+		for k, v := range f.used {
+			o.used[k] = v
+		}
+		return o
+	}
+	isAlgPtr := func(v ssa.Value) bool { return strings.HasSuffix(core.PathOf(v), "auth.Algorithm") || strings.HasSuffix(core.PathOf(v), ".Algorithm") }
+	nAccept, nBad := 0, 0
+	firstBad := ""
+	budget := 50000
+	var walk func(b *ssa.BasicBlock, f facts, on map[*ssa.BasicBlock]bool)
+	walk = func(b *ssa.BasicBlock, f facts, on map[*ssa.BasicBlock]bool) {
+		if on[b] || budget <= 0 {
+			return
+		}
+		budget--
+		on[b] = true
+		defer delete(on, b)
+		for _, in := range b.Instrs {
+			if call, ok := in.(*ssa.Call); ok {
+				if m := hashOf(call); m != "" {
+					if _, had := f.used[m]; !had {
+						f = clone(f)
+						f.used[m] = p.Pos(call.Pos())
+					}
+				}
+			}
+			if bo, ok := in.(*ssa.BinOp); ok && (bo.Op == token.EQL || bo.Op == token.NEQ) {
+				if strings.HasSuffix(core.PathOf(bo.X), ".BasicPass") || strings.HasSuffix(core.PathOf(bo.Y), ".BasicPass") {
+					f = clone(f)
+					f.used["VerifyMethodBasic"] = p.Pos(bo.Pos())
+				}
+			}
+		}
+		last := b.Instrs[len(b.Instrs)-1]
+		if ret, ok := last.(*ssa.Return); ok {
+			if isNilConst(ret.Results[0]) {
+				nAccept++
+				for m, at := range f.used {
+					if !f.enabled[consts[m]] {
+						nBad++
+						if firstBad == "" {
+							firstBad = fmt.Sprintf("a path accepts after evaluating the %s scheme (at %s) without having found %s among the enabled methods", strings.TrimPrefix(m, "VerifyMethod"), at, m)
+						}
+					}
+				}
+			}
+			return
+		}
+		iff, ok := last.(*ssa.If)
+		if !ok {
+			for _, s := range b.Succs {
+				walk(s, f, on)
+			}
+			return
+		}
+		for i, s := range b.Succs {
+			nf := clone(f)
+			feasible := true
+			cond, pol := iff.Cond, i == 0
+			if u, ok := cond.(*ssa.UnOp); ok && u.Op == token.NOT {
+				cond, pol = u.X, !pol
+			}
+			switch x := cond.(type) {
+			case *ssa.Call:
+				if cal := x.Call.StaticCallee(); cal != nil && strings.HasPrefix(cal.Name(), "Contains") && len(x.Call.Args) == 2 {
+					if k, ok := x.Call.Args[1].(*ssa.Const); ok && k.Value != nil && pol {
+						nf.enabled[k.Value.ExactString()] = true
+					}
+				}
+			case *ssa.BinOp:
+				if x.Op == token.EQL || x.Op == token.NEQ {
+					eq := (x.Op == token.EQL) == pol
+					if isNilConst(x.Y) && isAlgPtr(x.X) {
+						want := 2
+						if eq {
+							want = 1
+						}
+						if nf.algNil != 0 && nf.algNil != want {
+							feasible = false
+						}
+						nf.algNil = want
+					} else if k, ok := x.Y.(*ssa.Const); ok && k.Value != nil {
+						if ld, ok := x.X.(*ssa.UnOp); ok && ld.Op == token.MUL && isAlgPtr(ld.X) {
+							key := k.Value.ExactString()
+							if eq {
+								if nf.algNil == 1 || nf.algNot[key] || (nf.algIs != "" && nf.algIs != key) {
+									feasible = false
+								}
+								nf.algIs = key
+								nf.algNil = 2
+							} else {
+								if nf.algIs == key {
+									feasible = false
+								}
+								nf.algNot[key] = true
+							}
+						}
+					}
+				}
+			}
+			if feasible {
+				walk(s, nf, on)
+			}
+		}
+	}
+	walk(fn.Blocks[0], facts{enabled: map[string]bool{}, algNot: map[string]bool{}, used: map[string]string{}}, map[*ssa.BasicBlock]bool{})
+	if budget <= 0 {
+		r.Fail("C10/METHOD-GATE", "auth.Verify accepting paths", p.Pos(fn.Pos()), "too many paths to enumerate")
+		return
+	}
+	r.Check(nAccept >= 3, "C10/METHOD-GATE", "auth.Verify has accepting paths for MD5, SHA-256 and Basic", p.Pos(fn.Pos()), fmt.Sprintf("%d feasible accepting paths", nAccept), fmt.Sprintf("only %d accepting paths found", nAccept))
+	r.Check(nBad == 0, "C10/METHOD-GATE", "auth.Verify scheme evaluated vs method enabled", p.Pos(fn.Pos()), "on every accepting path the evaluated scheme was found enabled", firstBad)
+	r.OK("C10/METHOD-GATE", "hash helpers classified by crypto package", p.Pos(fn.Pos()), "md5 / sha256")
+}
+
+// c10CtxConn (added after the seeded change C10-r2m2 was missed): the handler
+// contexts built while a request is being handled carry the connection that
+// received the request. VerifyCredentials checks against the nonce of the
+// ServerConn it is called on, and the 401 challenge is built from the nonce of
+// the connection that received the request: if a context carries another
+// connection (the session's creator), a correct answer to the challenge can
+// never be accepted on a second connection of the same session.
+func c10CtxConn(c *Ctx) {
+	p, r := c.P, c.R
+	r.Rule("C10/CTX-CONN", "inside the request handlers (functions that receive the requesting *ServerConn), every handler context's Conn field is that connection: the challenge and the verification then use the same nonce", 8)
+	n := 0
+	nth := map[string]int{}
+	for _, fn := range p.SrcFuncs() {
+		pk := core.FuncPkg(fn)
+		if pk == nil || core.Rel(pk.Path()) != "" {
+			continue
+		}
+		// the requesting connection: a *ServerConn parameter, or the receiver of a ServerConn method
+		var conn ssa.Value
+		for _, prm := range fn.Params {
+			if core.NamedOfShort(core.Deref(prm.Type())) == "ServerConn" {
+				conn = prm
+			}
+		}
+		if conn == nil {
+			continue
+		}
+		for _, b := range fn.Blocks {
+			for _, in := range b.Instrs {
+				st, ok := in.(*ssa.Store)
+				if !ok {
+					continue
+				}
+				fa, ok := st.Addr.(*ssa.FieldAddr)
+				if !ok {
+					continue
+				}
+				f := core.FieldOfAddr(fa)
+				owner := core.NamedOfShort(core.Deref(fa.X.Type()))
+				if f == nil || f.Name() != "Conn" || !strings.HasPrefix(owner, "ServerHandlerOn") || !strings.HasSuffix(owner, "Ctx") {
+					continue
+				}
+				n++
+				k := fnShort(fn) + " " + owner + ".Conn"
+				nth[k]++
+				r.Check(st.Val == conn, "C10/CTX-CONN", fmt.Sprintf("%s #%d", k, nth[k]), p.Pos(st.Pos()), "the requesting connection",
+					owner+".Conn receives "+core.PathOf(st.Val)+" instead of the connection that received the request: credentials are verified against another connection's nonce than the one challenged")
+			}
+		}
+	}
+	if n == 0 {
+		r.Fail("C10/CTX-CONN", "handler contexts", "", "none found")
 	}
 }
